@@ -34,37 +34,51 @@ Record st := {
   since : nat;                   (* ghost: id of the first record of the current main file *)
   events : list (Z * Z);
   fuel : option nat; crashed : bool; fault : bool;
-  rfail : option nat             (* oracle: Some n = the (n+1)-th os.rename call from now raises OSError *)
+  rfail : option nat;            (* oracle: Some n = the (n+1)-th os.rename call from now raises OSError *)
+  ofail : option nat;            (* oracle: Some n = the (n+1)-th ocfn(path,'w+') of a rotation raises IOError *)
+  aborted : bool;                (* a write hit Log.file = None: AttributeError out of the runner, logger ABORTED *)
+  offered : nat                  (* ghost: records handed to the log by the logger runs so far *)
 }.
 
 (* ---- record update helpers ---- *)
 Definition set_disk (s : st) (fs : list (option content)) (hb : option content) : st :=
   {| now := now s; files := fs; hbuf := hb; first := first s; active := active s;
      flushStamp := flushStamp s; cycleStamp := cycleStamp s; next := next s; flushed := flushed s;
-     dropped := dropped s; since := since s; events := events s; fuel := fuel s; crashed := crashed s; fault := fault s; rfail := rfail s |}.
+     dropped := dropped s; since := since s; events := events s; fuel := fuel s; crashed := crashed s; fault := fault s; rfail := rfail s;
+     ofail := ofail s; aborted := aborted s; offered := offered s |}.
 Definition set_ghost (s : st) (n f d : nat) (ev : list (Z * Z)) : st :=
   {| now := now s; files := files s; hbuf := hbuf s; first := first s; active := active s;
      flushStamp := flushStamp s; cycleStamp := cycleStamp s; next := n; flushed := f;
-     dropped := d; since := since s; events := ev; fuel := fuel s; crashed := crashed s; fault := fault s; rfail := rfail s |}.
+     dropped := d; since := since s; events := ev; fuel := fuel s; crashed := crashed s; fault := fault s; rfail := rfail s;
+     ofail := ofail s; aborted := aborted s; offered := offered s |}.
 Definition set_vars (s : st) (t : Z) (fi a : bool) (fs cs : Z) : st :=
   {| now := t; files := files s; hbuf := hbuf s; first := fi; active := a;
      flushStamp := fs; cycleStamp := cs; next := next s; flushed := flushed s;
-     dropped := dropped s; since := since s; events := events s; fuel := fuel s; crashed := crashed s; fault := fault s; rfail := rfail s |}.
+     dropped := dropped s; since := since s; events := events s; fuel := fuel s; crashed := crashed s; fault := fault s; rfail := rfail s;
+     ofail := ofail s; aborted := aborted s; offered := offered s |}.
 Definition set_fuel (s : st) (fu : option nat) (cr fa : bool) : st :=
   {| now := now s; files := files s; hbuf := hbuf s; first := first s; active := active s;
      flushStamp := flushStamp s; cycleStamp := cycleStamp s; next := next s; flushed := flushed s;
-     dropped := dropped s; since := since s; events := events s; fuel := fu; crashed := cr; fault := fa; rfail := rfail s |}.
+     dropped := dropped s; since := since s; events := events s; fuel := fu; crashed := cr; fault := fa; rfail := rfail s;
+     ofail := ofail s; aborted := aborted s; offered := offered s |}.
 
 Definition set_since (s : st) (n : nat) : st :=
   {| now := now s; files := files s; hbuf := hbuf s; first := first s; active := active s;
      flushStamp := flushStamp s; cycleStamp := cycleStamp s; next := next s; flushed := flushed s;
-     dropped := dropped s; since := n; events := events s; fuel := fuel s; crashed := crashed s; fault := fault s; rfail := rfail s |}.
+     dropped := dropped s; since := n; events := events s; fuel := fuel s; crashed := crashed s; fault := fault s; rfail := rfail s;
+     ofail := ofail s; aborted := aborted s; offered := offered s |}.
 
 Definition set_rfail (s : st) (rf : option nat) (fa : bool) : st :=
   {| now := now s; files := files s; hbuf := hbuf s; first := first s; active := active s;
      flushStamp := flushStamp s; cycleStamp := cycleStamp s; next := next s; flushed := flushed s;
      dropped := dropped s; since := since s; events := events s; fuel := fuel s; crashed := crashed s;
-     fault := fa; rfail := rf |}.
+     fault := fa; rfail := rf; ofail := ofail s; aborted := aborted s; offered := offered s |}.
+
+Definition set_abort (s : st) (ofl : option nat) (ab : bool) (off : nat) : st :=
+  {| now := now s; files := files s; hbuf := hbuf s; first := first s; active := active s;
+     flushStamp := flushStamp s; cycleStamp := cycleStamp s; next := next s; flushed := flushed s;
+     dropped := dropped s; since := since s; events := events s; fuel := fuel s; crashed := crashed s;
+     fault := fault s; rfail := rfail s; ofail := ofl; aborted := ab; offered := off |}.
 
 (* ---- content ---- *)
 Definition ids (c : content) : list nat :=
@@ -98,7 +112,9 @@ Definition f_write_recs (szs : list Z) (s : st) : st :=
   match hbuf s with
   | Some b => set_ghost (set_disk s (files s) (Some (b ++ mkrecs (next s) szs)))
                         (next s + length szs)%nat (flushed s) (dropped s) (events s)
-  | None => s            (* write on a closed file: ValueError, caught by Log.log *)
+  | None => set_abort s (ofail s) true (offered s)
+      (* Log.file is None (closed, or the new main file could not be created): AttributeError, NOT caught by
+         Log.log's `except ValueError`: it leaves the runner, the logger is ABORTED -- the failure surfaces *)
   end.
 Definition f_write_hdr (s : st) : st :=
   match hbuf s with
@@ -210,7 +226,11 @@ Definition log_cycle (c : cfg) (size : Z) (s : st) : st :=
                           (match last fs None with None => next s3 | Some _ => since s3 end) in
       if crashed s4 then s4 else
       if fault s4 then log_reopen O s4 else
-      log_reopen O (prim f_write_hdr (prim f_create_trunc s4))
+      match ofail s4 with
+      | Some O => set_abort s4 None (aborted s4) (offered s4)   (* IOError: self.file = None; return False *)
+      | ofl => log_reopen O (prim f_write_hdr (prim f_create_trunc
+                 (set_abort s4 (match ofl with Some (S n) => Some n | _ => ofl end) (aborted s4) (offered s4))))
+      end
   end.
 
 (* ---- Logger ---------------------------------------------------------------- *)
@@ -222,8 +242,7 @@ Definition set_active (s : st) (a : bool) : st :=
   set_vars s (now s) (first s) a (flushStamp s) (cycleStamp s).
 
 (* Logger.log: every log's action (here: write the run's records), then the flush and cycle timers *)
-Definition logger_log (c : cfg) (szs : list Z) (s : st) : st :=
-  let s1 := match szs with [] => s | _ => prim (f_write_recs szs) s end in
+Definition logger_rest (c : cfg) (s1 : st) : st :=
   let s2 := if flushP c <=? now s1 - flushStamp s1
             then set_flushStamp (prim f_flush s1) (now s1) else s1 in
   match keep c with
@@ -231,6 +250,10 @@ Definition logger_log (c : cfg) (szs : list Z) (s : st) : st :=
   | S _ => if cycleP c <=? now s2 - cycleStamp s2
            then set_cycleStamp (log_cycle c (fsize c) s2) (now s2) else s2
   end.
+Definition logger_log (c : cfg) (szs : list Z) (s : st) : st :=
+  let s0 := set_abort s (ofail s) (aborted s) (offered s + length szs)%nat in
+  let s1 := match szs with [] => s0 | _ => prim (f_write_recs szs) s0 end in
+  if aborted s1 then s1 else logger_rest c s1.
 
 (* Log.prepare: the header goes into a file this Log object created *)
 Definition log_prepare (s : st) : st := if first s then prim f_write_hdr s else s.
@@ -242,13 +265,19 @@ Inductive op :=
 | Stop (szs : list Z).
 
 Definition step (c : cfg) (s : st) (o : op) : st :=
+  if aborted s then s else       (* the runner generator is dead *)
   match o with
   | Tick d => set_vars s (now s + d) (first s) (active s) (flushStamp s) (cycleStamp s)
-  | Start szs => set_active (logger_log c szs (log_prepare (log_reopen (keep c) s))) true
+  | Start szs =>
+      (* Log.prepare writes the header iff Log.stamp is None and Log.first; the first run of the log's action
+         sets Log.stamp, so after the first START no header is ever written by prepare again: first := false *)
+      let s' := logger_log c szs (log_prepare (log_reopen (keep c) s)) in
+      set_vars s' (now s') false true (flushStamp s') (cycleStamp s')
   | Run szs => if active s then logger_log c szs s else s
   | Stop szs =>
       if active s then
         let s1 := logger_log c szs s in
+        if aborted s1 then s1 else
         let s2 := if (negb (Nat.eqb (keep c) O)) && reuse c then log_cycle c (fsize c) s1 else s1 in
         set_active (log_close s2) false
       else s
@@ -259,7 +288,8 @@ Definition init (c : cfg) (t0 : Z) (d0 : list (option content)) (n0 dr0 : nat) (
   {| now := t0; files := d0; hbuf := None; first := true; active := false;
      flushStamp := 0; cycleStamp := 0; next := n0; flushed := n0; dropped := dr0;
      since := (n0 - length (oids (last d0 None)))%nat; events := [];
-     fuel := fu; crashed := false; fault := false; rfail := None |}.
+     fuel := fu; crashed := false; fault := false; rfail := None;
+     ofail := None; aborted := false; offered := n0 |}.
 
 Definition empty_disk (c : cfg) : list (option content) := repeat None (S (keep c)).
 
@@ -270,6 +300,10 @@ Definition run (c : cfg) (t0 : Z) (fu : option nat) (ops : list op) : st :=
 (* the same with a rename-failure oracle: the (n+1)-th os.rename call of the process raises OSError *)
 Definition runf (c : cfg) (t0 : Z) (fu rf : option nat) (ops : list op) : st :=
   runfrom c (set_rfail (init c t0 (empty_disk c) O O fu) rf false) ops.
+
+(* ... and an oracle for the creation of the new main file: the (m+1)-th ocfn(path,'w+') raises IOError *)
+Definition runfo (c : cfg) (t0 : Z) (fu rf ofl : option nat) (ops : list op) : st :=
+  runfrom c (set_abort (set_rfail (init c t0 (empty_disk c) O O fu) rf false) ofl false O) ops.
 
 (* ---- vocabulary of the property statements ----------------------------------- *)
 (* what survives the death of the process: the disk, where main may also have received any prefix of the
